@@ -210,6 +210,7 @@ def classify(diags, raw, sm, woven_src):
                 if e and e["meta"].get("clause"):
                     f["clause"] = e["meta"]["clause"]
         cl = sm.meta["clauses"].get(f["clause"]) if f["clause"] else None
+        f["clause_name"] = cl.get("name") if cl else None
         if f["unit"] is None and cl:
             f["unit"] = cl["unit"]
         if f["unit"] is None:
@@ -245,6 +246,8 @@ def match_known(f, known, prop):
         if k.get("kind") and k["kind"] != f["kind"]:
             continue
         if k.get("clause") and k["clause"] != f.get("clause"):
+            continue
+        if k.get("clause_tag") and k["clause_tag"] != f.get("clause_name"):
             continue
         if k.get("site_text") and k["site_text"] not in (f.get("text") or ""):
             continue
@@ -352,7 +355,7 @@ def decide(prop, tier, seed, a, rundir, woven, t0):
         print("UNDECIDED property=%s reason=weave: %s" % (prop, e))
         return 2
     sm = SegMap(meta, a.repo)
-    extra = ["--num-threads", "16", "--rlimit", "60" if tier == "quick" else "120"]
+    extra = ["--num-threads", "16", "--multiple-errors", "20", "--rlimit", "60" if tier == "quick" else "120"]
     if seed:
         extra += ["--smt-option", "smt.random_seed=%d" % (seed % 1000)]
     cmd, out, so, se, wall = run_verus(woven, extra)
@@ -364,7 +367,7 @@ def decide(prop, tier, seed, a, rundir, woven, t0):
     # retry unstable proofs: a failure that disappears under another seed / larger rlimit is not a failure
     if failures and not undecided:
         for k, (sd, rl) in enumerate([(7, 240), (23, 240)]):
-            cmd2, out2, so2, se2, w2 = run_verus(woven, ["--num-threads", "16", "--rlimit", str(rl), "--smt-option", "smt.random_seed=%d" % sd])
+            cmd2, out2, so2, se2, w2 = run_verus(woven, ["--num-threads", "16", "--multiple-errors", "20", "--rlimit", str(rl), "--smt-option", "smt.random_seed=%d" % sd])
             d2, r2 = parse_diags(se2)
             f2, u2 = classify(d2, r2, sm, os.path.join(woven, "src"))
             key = lambda f: (f["unit"], f["kind"], f.get("clause"), f.get("woven_loc"))
